@@ -114,6 +114,14 @@ let run () =
     | ["atoll"; v] -> let b = bytes_of_hex v @ [N0] in
                       let s = if hatoll_stops b then "atoll " ^ string_of_z (hatoll b) else "atoll overread" in
                       print_endline ("M " ^ s); print_endline ("S " ^ s)
+    | ["puthuge"; _] ->
+      (* a put whose value cannot be allocated (size SIZE_MAX/2): refused with ENOMEM, the table is what it was (the state is not stepped) *)
+      (if !dead then print_endline "M DEAD" else
+         let s' = !st in
+         let d = dump_slots s' in
+         let d = if !dump then d else Printf.sprintf "fnv=%08x" (fnv32 d) in
+         print_endline (Printf.sprintf "M fail ENOMEM | num=%d range=%d %s" (int_of_n s'.hnum) (int_of_n s'.hrange) d));
+      (if !sdead then print_endline "S DEAD" else print_endline (Printf.sprintf "S fail ENOMEM | n=%d" (List.length !sp)))
     | ["printd"; z] -> let s = "printd " ^ hex_of_bytes (hprint_dec (z_of_int64 (Int64.of_string z))) in
                        print_endline ("M " ^ s); print_endline ("S " ^ s)
     | _ ->
